@@ -4,4 +4,4 @@ cd /verif
 python3 -c "
 import json
 for c in json.load(open('MANIFEST.json'))['checks']: print(c['property_id'])" > /var/tmp/props.txt
-cat /var/tmp/props.txt | xargs -P 4 -I{} sh -c '/verif/bin/govc check --property {} > /var/tmp/runall_{}.log 2>&1; echo "{} exit=$? $(tail -1 /var/tmp/runall_{}.log)"' | sort
+cat /var/tmp/props.txt | xargs -P 2 -I{} sh -c '/verif/bin/govc check --property {} > /var/tmp/runall_{}.log 2>&1; echo "{} exit=$? $(tail -1 /var/tmp/runall_{}.log)"' | sort
